@@ -204,6 +204,13 @@ def execute(sim: Any, spec: Spec, op: dict) -> tuple[list[dict], bool]:
             sim.update_variables(dict(op["values"]))
         elif k == "steady":
             sim.simulate_to_steady_state()
+        elif k == "read_views":
+            # reading result views between operations must not change what the next segment runs with
+            res0 = sim.get_result().value
+            if not isinstance(res0, Exception):
+                _ = res0.fluxes
+                _ = res0.get_right_hand_side()
+                _ = res0.get_producers(spec.net.variables[0], scaled=True)
         elif k == "clear":
             sim.clear_results()
         elif k == "protocol":
@@ -248,6 +255,8 @@ def execute(sim: Any, spec: Spec, op: dict) -> tuple[list[dict], bool]:
         if isinstance(res, Exception):
             return [{"what": "steady-state run on a stable linear network reported failure (accepted by the statement)", "benign": True}], True
         spec.t = float(res.raw_variables[-1].index[-1])
+    elif k == "read_views":
+        pass
     elif k == "clear":
         spec.segments = []
         spec.t = None
